@@ -501,6 +501,23 @@ macro_rules! qv_build {
                     "builder" => { let mut b = QVectorBuilder::new(); for &x in v.iter() { let s: u8 = num_traits::AsPrimitive::<u8>::as_(x); b.push(s); } b.build() },
                     "extend" => { let mut b = QVectorBuilder::with_capacity(v.len()); b.extend(v.iter().copied()); b.build() },
                     "default" => QVector::default(),
+                    h if h.starts_with("hist:") => {
+                        // a push / extend history: tokens p<k> (k pushes) and e<k> (one extend of k values)
+                        let mut b = QVectorBuilder::new();
+                        let mut pos = 0usize;
+                        for tok in h[5..].split(',') {
+                            if tok.is_empty() { continue; }
+                            let k: usize = match tok[1..].parse() { Ok(k) => k, Err(_) => return None };
+                            let end = (pos + k).min(v.len());
+                            if tok.starts_with('p') {
+                                for &x in v[pos..end].iter() { let s: u8 = num_traits::AsPrimitive::<u8>::as_(x); b.push(s); }
+                            } else if tok.starts_with('e') {
+                                b.extend(v[pos..end].iter().copied());
+                            } else { return None; }
+                            pos = end;
+                        }
+                        b.build()
+                    }
                     _ => return None,
                 };
                 let after = live();
@@ -1030,7 +1047,14 @@ impl State {
                 None => "X".into(),
             },
             "OP" => match &mut self.cur {
-                Some(o) => o.m(t[1], &t[2..]),
+                Some(o) => {
+                    // keep the retained-heap figure current: a mutation may grow or shrink the value
+                    let before = live();
+                    let r = o.m(t[1], &t[2..]);
+                    let after = live();
+                    self.heap += after - before - r.capacity() as isize;
+                    r
+                }
                 None => "X".into(),
             },
             "ITER" => match &self.cur {
